@@ -252,7 +252,7 @@ class Type2Tag(Tag):
                 while offset + index in skip_bytes:
                     offset += 1
                 tag_memory[offset+index] = octet
-            offset = offset + index + 1
+            offset = offset + len(data)
             while offset in skip_bytes:
                 offset += 1
             if offset < tag_memory[14] * 8 + 16:
@@ -264,8 +264,12 @@ class Type2Tag(Tag):
             if len(data) < 255:
                 tag_memory[offset+1] = len(data)
             else:
-                tag_memory[offset+1] = 0xFF
+                # If the length field straddles two pages the 0xFF marker
+                # must not become valid before the length is on the tag.
                 tag_memory[offset+2:offset+4] = pack(">H", len(data))
+                if (offset + 1) // 4 != (offset + 3) // 4:
+                    tag_memory.synchronize()
+                tag_memory[offset+1] = 0xFF
             tag_memory.synchronize()
 
     #
